@@ -6,7 +6,8 @@ class Func:
     def __init__(self, name, args, ret):
         self.name, self.args, self.ret = name, args, ret
         self.locals = {}      # n -> type string
-        self.debug = {}       # source name -> place text
+        self.debug = {}       # source name -> place text (last binding wins)
+        self.debug_list = []  # (source name, place text) in declaration order (names are re-bound by shadowing)
         self.blocks = {}      # n -> Block
         self.src_line = None
 
@@ -170,6 +171,7 @@ def parse_file(path, want=None):
                 m = DEBUG.match(line)
                 if m:
                     cur.debug[m.group(1)] = m.group(2)
+                    cur.debug_list.append((m.group(1), m.group(2)))
                     continue
                 m = BB.match(line)
                 if m:
